@@ -205,11 +205,12 @@ var appTable = []bsig{
 var valuesQuick = []string{
 	"0", "1", "-1", "2.5", `""`, `"a"`, "'a", ":k", "true", "()", "'(1 2)", "'(a b)", "'((1 2) (3))", "(vector 1 2)",
 	"'list", "'vector", "(lambda (x) x)", "(lambda (x y) (+ x y))", "car", "list?", "symbol?",
+	"(lambda (&rest r) r)", // a callee that lets its &rest list escape: every application must hand it a list of its own
 }
 
 var valuesThorough = append(append([]string{}, valuesQuick...),
 	"3", "7", "9223372036854775807", "-9223372036854775808", "0.0", "-2.5", "1e21", `"abc"`, "'b", "false", "'(3 1 2)", "'(1)",
-	"(vector)", "(list 'a 1)", "(lambda (&rest r) r)", "(lambda () 1)", "+", "<", "nil?")
+	"(vector)", "(list 'a 1)", "(lambda () 1)", "+", "<", "nil?")
 
 func tableApp(r *core.Run) {
 	vals := valuesQuick
